@@ -105,6 +105,28 @@ FIRST = {
     "C19_6": ("-", "as C17_7 (C17.polynomial-arith also serves C19)"),
     "C19_7": ("other", "C06.trees also serves C19"),
     "C20_8": ("-", "single graph function must reach the widget uncalled (C20.subjects)"),
+    # ---- round 4 (ids _9, _10, _11): one change at the natural place, two where a reviewer would not look first ----
+    "C01_11": ("other", "C02.table / C03.table also serve C01 (multiplying basis blades of a lazily filled algebra)"),
+    "C02_10": ("-", "C11.recorder-keys (a recorder keeps the key tuple it is created with, in that order)"),
+    "C02_11": ("other", "C01.lazy-eager also serves C02 and C03"),
+    "C03_10": ("-", "operands stored as a pure scalar (key pattern (0,)) on either side in C03.table"),
+    "C03_11": ("AE", "a real 7-dimensional representative in C03.table"),
+    "C04_10": ("other", "C09.own-operator-dicts also serves C03-C07"),
+    "C05_10": ("-", "C09.exception-atomic: generators raising ZeroDivisionError / NotImplementedError, no wrapper, and the second attempt must raise again (also C05, C07)"),
+    "C05_11": ("-", "C08.pipeline-passthrough: the code generator is always run, also for operands that store no blade"),
+    "C06_10": ("-", "C16.operand-kinds: a plain number goes through every binary operator's own generated function (rescaling accepted only where it IS the operator)"),
+    "C06_11": ("AE", "grade / size cells of the operands in C06.trees"),
+    "C07_10": ("other", "C03.table also serves C07 (the closed-form denominator is a scalar product)"),
+    "C09_11": ("-", "C09.own-operator-dicts: a registry handed to the constructor is not modified in place"),
+    "C11_9": ("-", "C11.emission-pairing with the numbers 1 and 0"),
+    "C12_10": ("-", "C06.filter: coefficients that evaluate to 0 when probed (subs / evalf / ...) but that simp_func keeps must be kept"),
+    "C12_9": ("AE", "C09.numspace-writers also serves C12"),
+    "C13_11": ("-", "C08.pipeline-passthrough: prepared dependencies reach lambdify with cse off as well"),
+    "C14_11": ("AE", "C14.algebra-check also with the key pattern already compiled (`key in self` is modelled)"),
+    "C17_11": ("-", "Polynomial ** n cells (value and well-formedness)"),
+    "C18_10": ("AE", "C09.owns-signature (the algebra keeps its own copy of the signature)"),
+    "C19_10": ("AE", "necessary condition decided when the loop is not evaluable: outertan takes a quotient or inverse at all"),
+    "C19_11": ("-", "quadvector representative in C19.outertrig"),
 }
 
 rows = []
